@@ -12,13 +12,16 @@ PROP = dict(
                "check (C23 uses an independent decoder).  Modelled not verified: the decision context (topic validity, "
                "ACL answer, in-flight record under the id, receive quota) is read from the real broker before each "
                "request; hooks that reject packets are excluded as the property says.",
-    engines=[dict(hx="respond")],
+    engines=[dict(hx="respond"), dict(hx="writesched", model="respond")],
     theorems=["C07_modulo_findings", "C07_refuted_pubrel", "C07_refuted_downgrade"],
     model_files="coq/Session/Respond.v",
     rule="sessions of 40 (thorough 60) random requests on one connection (PUBLISH QoS 0-2 on valid/$SYS/denied "
          "topics with ids from {1,2,3} so that ids collide with unreleased QoS 2 exchanges, PUBREL with 0/0x92, "
          "SUBSCRIBE/UNSUBSCRIBE with 1-3 filters incl. invalid/denied/shared+NoLocal, PINGREQ) x versions 3/4/5 x "
-         "server max QoS 0/1/2 x receive maximum 1 x obscure-not-authorized; non-trivial = the request requires a "
+         "server max QoS 0/1/2 x receive maximum 1 x obscure-not-authorized.  writesched: 60 (thorough 1500) forced "
+         "interleavings of the write loop and the handler at the schedule point write.beforeLock of WritePacket: the "
+         "response (PINGRESP/SUBACK/PUBACK) enters WritePacket while 2-4 publishes for the same client are queued, "
+         "the queue is drained, then the response takes the lock (or the other way round); non-trivial = the request requires a "
          "response; distinct = distinct (context, request, observation) lines",
     modelled="server.go processPacket/processPublish (up to the ack)/processPubrel/processSubscribe/"
              "processUnsubscribe/processPingreq/receivePacket: the response decision only",
